@@ -103,37 +103,39 @@ def cli(argv=sys.argv, mode='output'):
                         dest='verbose',
                         help="""Output just the formula with no header.""")
 
-    # Be lenient on non string arguments
-    argv = [str(x) for x in argv]
+    # All messages are shielded as DIMACS comments
+    with msg_prefix('c '):
+        # Be lenient on non string arguments
+        argv = [str(x) for x in argv]
 
-    # Process the options
-    args = parser.parse_args(argv[1:])
+        # Process the options
+        args = parser.parse_args(argv[1:])
 
-    # If necessary, init the random generator
-    if hasattr(args, 'seed') and args.seed:
-        random.seed(args.seed)
+        # If necessary, init the random generator
+        if hasattr(args, 'seed') and args.seed:
+            random.seed(args.seed)
 
-    msg = """Waiting for a DIMACS formula on <stdin>.
-             Alternatively you can feed a formula to <stdin>
-             with piping or using '-i' command line argument."""
+        msg = """Waiting for a DIMACS formula on <stdin>.
+                 Alternatively you can feed a formula to <stdin>
+                 with piping or using '-i' command line argument."""
 
-    with msg_prefix("c INPUT: "):
-        interactive_msg(msg, filltext=70)
-    F = CNF.from_file(args.input)
+        with msg_prefix("INPUT: "):
+            interactive_msg(msg, filltext=70)
+        F = CNF.from_file(args.input)
 
-    # Default permutation
-    polarity_flips='fixed' if args.no_polarity_flips else 'shuffle'
-    variables_permutation='fixed' if args.no_variables_permutation else 'shuffle'
-    clauses_permutation='fixed' if args.no_clauses_permutation else 'shuffle'
+        # Default permutation
+        polarity_flips='fixed' if args.no_polarity_flips else 'shuffle'
+        variables_permutation='fixed' if args.no_variables_permutation else 'shuffle'
+        clauses_permutation='fixed' if args.no_clauses_permutation else 'shuffle'
 
-    G = Shuffle(F, polarity_flips, variables_permutation, clauses_permutation)
+        G = Shuffle(F, polarity_flips, variables_permutation, clauses_permutation)
 
-    if mode == 'formula':
-        return G
-    elif mode == 'string':
-        return G.to_dimacs()
-    else:
-        G.to_file(args.output, fileformat='dimacs', export_header=args.verbose)
+        if mode == 'formula':
+            return G
+        elif mode == 'string':
+            return G.to_dimacs()
+        else:
+            G.to_file(args.output, fileformat='dimacs', export_header=args.verbose)
 
 
 # Launcher
